@@ -479,6 +479,16 @@ def r5_skeleton(R, unit: FUnit) -> None:
     ok = len(adj) == 1 and any(text(cfg.nodes[tid].ast) == 'not converged' and lab == 'T' for (tid, lab) in G(adj[0].id))
     R.check(ok, C, 'exhausted-count', 'after an exhausted loop the reported count is max_iter (do-variable minus one when not converged)',
             'no `if(.not. converged) iteration = iteration - 1` after the loop: an unconverged period would report max_iter + 1 passes', where='template')
+    # a run in which the loop body never executes (max_iter < 1) must end with error code 0, as the
+    # Python solver ends with status 'F' and no error: every fall-through exit passes an `error_code = 0`
+    # assignment or a call of evaluate() (which sets it)
+    setters = [n.id for n in cfg.nodes if n.kind == 'stmt' and ((isinstance(n.ast, ast.Assign) and text(n.ast.targets[0]) == 'error_code' and is_const(n.ast.value, 0))
+                                                                  or (isinstance(n.ast, ast.Expr) and is_call(n.ast.value, 'evaluate')))]
+    falls = [n for n in cfg.nodes if any(b == cfg.exit and lab == 'fall' for (b, lab) in n.succ)]
+    ok = bool(falls) and all(must_pass(cfg, cfg.entry, n.id, setters) or n.id in setters for n in falls)
+    R.check(ok, C, 'zero-trip-error-code', 'the routine ends with error code 0 when no pass is run (max_iter < 1)',
+            'a path reaches the end of solve_t with the error code still at its initial -1 (the pass loop never ran and nothing set it): the wrapper reports '
+            '"uncaught error code -1" where the Python engine records F / NonConvergenceError', where='template')
     # numerical error handling returns codes for raise / skip
     for ctl, code in (('error_control_raise', 'numerical_error_raise'), ('error_control_skip', 'numerical_error_skip')):
         ts = [t for t in tests if lp.id in t.loops and text(t.ast) == f'error_control == {ctl}']
